@@ -60,8 +60,8 @@ def _spine_has_call(e):
 def _lift_spine(e, pre):
     """Hoist the calls on the receiver spine of e into temporaries (left-to-right order is preserved)."""
     def tmp(call):
-        _ANF_COUNTER[0] += 1
-        name = f"_anf{_ANF_COUNTER[0]}"
+        # deterministic per source position: re-executing the statement (loop dry runs) re-uses the same temporary
+        name = f"_anf_{getattr(call, 'lineno', 0)}_{getattr(call, 'col_offset', 0)}_{getattr(call, 'end_col_offset', 0)}"
         a = ast.Assign(targets=[ast.Name(id=name, ctx=ast.Store())], value=call, lineno=getattr(e, "lineno", 0))
         ast.copy_location(a, call)
         ast.fix_missing_locations(a)
